@@ -210,6 +210,9 @@ func combineTypes(types []*Type) *Type {
 	combinedT := types[0]
 	for _, t := range types[1:] {
 		if combinedT.Equals(t) {
+			if t.Fixed {
+				combinedT = t // remember that a variable's fixed type is involved
+			}
 			continue
 		}
 		// types are not equal, ensure that composite types can be combined
